@@ -41,6 +41,9 @@ def build_call(spec):
 
         def f():
             st = dict(spec["settings"]) if spec.get("settings") is not None else None
+            if spec.get("adl"):       # with the detected language reported next to every hit
+                r = search_dates(spec["s"], languages=spec.get("languages"), settings=st, add_detected_language=True)
+                return "None" if r is None else repr([(a, norm(b), lang) for a, b, lang in r])
             r = search_dates(spec["s"], languages=spec.get("languages"), settings=st)
             return "None" if r is None else repr([(a, norm(b)) for a, b in r])
         return f
@@ -126,6 +129,11 @@ def main():
     def count_run():
         n = [0]
         lines = []
+        try:
+            from dateparser.conf import _lock as liblock       # the library's own serialisation, where the tree has one
+            owned = liblock._is_owned
+        except Exception:  # noqa
+            owned = None
 
         def tracer(frame, event, arg):
             if event == "call":
@@ -133,6 +141,8 @@ def main():
             if event == "line":
                 n[0] += 1
                 lines.append((os.path.relpath(frame.f_code.co_filename, libroot), frame.f_lineno, frame.f_code.co_name))
+                if owned is not None and not owned():
+                    free.add(n[0])
             return tracer
 
         def body():
@@ -148,8 +158,10 @@ def main():
         t.join()
         return n[0], lines
 
+    free = set()         # A's line events executed while A does not hold the library's lock: B can run there in full
     K, lines = count_run()
     res["K"] = K
+    res["unlocked_points"] = len(free)
     # choose preemption points
     mode = req.get("points", "all")
     if mode == "all":
@@ -167,10 +179,15 @@ def main():
         budget = int(req.get("budget", 300))
         if len(pts) > budget:
             pts = set(rng.sample(sorted(pts), budget))
+        # every point outside the lock (entry and exit code of the public functions) - these are the points where the
+        # other call really runs in between; capped like the others
+        fr = sorted(free)
+        pts |= set(fr if len(fr) <= budget else rng.sample(fr, budget))
         rest = [i for i in range(1, K + 1) if i not in pts]
         pts |= set(rng.sample(rest, min(len(rest), max(10, budget // 5))))
         pts |= {1, K}
-        points = sorted(pts)
+        # the points outside the lock first (a time budget that runs out must not cut them off)
+        points = sorted(pts & free) + sorted(pts - free)
     timeout = max(float(req.get("block_timeout", 0.03)), 4 * durB + 0.01)
     bad = []
     recs = []
